@@ -6,6 +6,11 @@ from .core import Unsupported
 from .heap import Obj, MapVal, ChanVal
 
 
+def zlib_crc(s):
+    import zlib
+    return zlib.crc32(s.encode())
+
+
 class InstrOps:
     # ------------------------------------------------------------------ memory
     def get_path(self, v, path):
@@ -396,6 +401,14 @@ class InstrOps:
                 return z3.fpToSBV(z3.RTZ(), x.v, z3.BitVecSort(td["bits"])) if not td["unsigned"] else z3.fpToUBV(z3.RTZ(), x.v, z3.BitVecSort(td["bits"]))
             if fc == "float" and tc == "float":
                 return x
+            if fc == "unsafeptr" and tc == "int" and isinstance(x, Ptr):
+                # uintptr(unsafe.Pointer(p)): a stable synthetic address (allocation order; real addresses are arbitrary)
+                self.note("assumption", "uintptr(pointer) uses synthetic addresses ordered by allocation")
+                addr = 0
+                for g, r in reversed(x.alts):
+                    a = 0 if r is None else (r.obj + 1) * 65536 + (zlib_crc(repr(r.path)) & 0xFFF0)
+                    addr = i_ite(g, a, addr, td["bits"])
+                return addr
             if fc == "unsafeptr" or tc == "unsafeptr":
                 return x
             raise Unsupported("convert %s->%s" % (fc, tc))
